@@ -22,10 +22,10 @@ PID = "C26"
 MC_EP_L = [{"name": "E", "pat": "*.b"}]
 MC_EP_G = [{"lang": "any", "target": "dot"}]
 INVS = ["KeysLowerUnique", "EntryPointsSurvive", "CacheCoherent", "RefuseDuplicates",
-        "ForFileExactlyOne", "CachedOrFresh"]
+        "ForFileExactlyOne", "CachedOrFresh", "FailedRequestKeepsCache"]
 # deviation clause -> invariants it must break in the model (vacuity / sensitivity of the module)
 DEV_BREAKS = {"NoLowerOnRegister": "KeysLowerUnique", "ClearKeepsCache": "CacheCoherent",
-              "FirstOfSeveral": "ForFileExactlyOne"}
+              "FirstOfSeveral": "ForFileExactlyOne", "FailedRequestEvicts": "FailedRequestKeepsCache"}
 
 
 def _key(st):
@@ -140,7 +140,8 @@ def _random_traces(rng, count, length, nopat):
                 elif name in ("DescribeLanguage",):
                     args = [rng.choice(T_NAMES + ["E", "Qq"])]
                 elif name == "MetamodelFor":
-                    args = [rng.choice(T_NAMES + ["E", "Qq"]), rng.random() < 0.4]
+                    kw = rng.random() < 0.45
+                    args = [rng.choice(T_NAMES + ["E", "Qq"]), kw, kw and rng.random() < 0.35]
                 elif name in ("LanguagesForFile", "LanguageForFile"):
                     args = [rng.choice(T_FILES)]
                 elif name == "RegisterGenerator":
